@@ -218,6 +218,33 @@ def scenario_records(draw, max_events=10, allow_gaps=True, min_events=2):
                     {'gen': 'scenario', 'thr_units': thr_units})
 
 
+@st.composite
+def float_records(draw, max_steps=30):
+    """Off the lattice: arbitrary finite doubles for intensities, levels
+    and thresholds (aligned sampling, optional gaps)."""
+    dt, tz, t0 = draw(header())
+    n = draw(st.integers(2, max_steps))
+    s = draw(st.one_of(st.floats(1e-3, 30.0), st.sampled_from(
+        [4.0, 8.0, 1e-6, 250.0])))
+    j = draw(st.one_of(st.floats(1e-3, 60.0), st.sampled_from(
+        [8.0, 5.0, 1e-6, 500.0])))
+    rain = [draw(st.one_of(st.just(0.0), st.just(0.0),
+                           st.floats(0.0, 3 * s + 1.0),
+                           st.just(s))) for _ in range(n)]
+    scale = j * dt / 3600.0
+    z = [draw(st.floats(-500.0, 500.0))]
+    for _ in range(n):
+        z.append(z[-1] + draw(st.one_of(
+            st.floats(-2 * scale, 3 * scale), st.just(0.0),
+            st.just(scale), st.floats(-0.5, 0.0))))
+    removed = draw(gaps_for(0, n + 1))
+    wl = [[k * dt, v] for k, v in enumerate(z) if k not in removed]
+    et = [[i, 0.125] for i in range(-2, n + 4)]
+    return {'dt': dt, 't0': t0, 'tz': tz,
+            'rain': [[i, v] for i, v in enumerate(rain)], 'et': et,
+            'wl': wl, 's': s, 'j': j, 'gen': 'float'}
+
+
 def records(max_steps=30, allow_gaps=True):
     return st.one_of(free_records(max_steps=max_steps, allow_gaps=allow_gaps),
                      scenario_records(allow_gaps=allow_gaps))
